@@ -1,0 +1,57 @@
+//go:build verif
+
+package semap
+
+// Verification hooks (build tag verif only): read-only projections of the container state and a
+// gate at the one scheduling point inside acquire that the public API cannot reach.
+
+// VerifGate, when set, is called by a waiter whose context ended, after it left the select and
+// before it re-locks the map mutex.
+var VerifGate func(point string)
+
+func verifGate(point string) {
+	if f := VerifGate; f != nil {
+		f(point)
+	}
+}
+
+func verifShard(m SemMapper, key interface{}) *SemMap {
+	switch s := m.(type) {
+	case *SemMap:
+		return s
+	case *WideSemMap:
+		return s.calculateKey(key)
+	}
+	return nil
+}
+
+// VerifKeyState reports whether the container holds an entry for key, the tokens handed out and
+// the number of queued waiters of that entry.
+func VerifKeyState(m SemMapper, key interface{}) (present bool, cur int, waiters int) {
+	var s = verifShard(m, key)
+	s.mux.Lock()
+	defer s.mux.Unlock()
+	var w, ok = s.m[key]
+	if !ok {
+		return false, 0, 0
+	}
+	return true, w.cur, w.waiters.Len()
+}
+
+// VerifEntries reports the number of entries kept by the container (all shards).
+func VerifEntries(m SemMapper) int {
+	var ms []*SemMap
+	switch s := m.(type) {
+	case *SemMap:
+		ms = []*SemMap{s}
+	case *WideSemMap:
+		ms = s.ms
+	}
+	var n int
+	for _, s := range ms {
+		s.mux.Lock()
+		n += len(s.m)
+		s.mux.Unlock()
+	}
+	return n
+}
